@@ -122,8 +122,16 @@ class Player:
         self.ev.append({"a": "Report", "t": t, "s": s, "v": v})
 
     def sp(self, t):
-        d = self.trials[t].should_prune()
-        self.ev.append({"a": "ShouldPrune", "t": t, "d": 1 if d is True else 0 if d is False else 7})
+        try:
+            d = self.trials[t].should_prune()
+        except Exception as e:  # an exception of the pruner on a legal history is an answer no action allows
+            self.ev.append({"a": "ShouldPrune", "t": t, "d": 8, "exc": repr(e)[:200]})
+            return False
+        if type(d).__name__ not in ("bool", "bool_", "bool"):       # numpy.bool_ is what percentile returns
+            code = 7
+        else:
+            code = 1 if d else 0
+        self.ev.append({"a": "ShouldPrune", "t": t, "d": code})
         return bool(d)
 
     def fin(self, t, st):
@@ -416,7 +424,11 @@ def run(ctx):
                 "in-memory / id-offset / sqlite storages; every study is played through the real API and is one trace "
                 "judged by TLC against Pruners.tla; distinct = distinct (configuration, history, decisions) with at "
                 "least one should_prune call")
+    import time
+    ph = {}
+    t0 = time.time()
     _models(ctx)
+    ph["models_s"] = round(time.time() - t0, 1)
     common.use_repo()
     rng = ctx.rng
     storages = Storages()
@@ -427,14 +439,17 @@ def run(ctx):
         traces.append(tr)
         ctx.count_case({"c": p.c, "ev": p.ev}, nontrivial=any(e["a"] == "ShouldPrune" for e in p.ev))
 
-    n_sim = 1200 if ctx.quick else 12000
+    n_sim = 1000 if ctx.quick else 12000
+    t0 = time.time()
     behs = tlc.simulate("PrunersMC", "PrunersMC_sim", num=n_sim, depth=34, seed=ctx.seed + 1, timeout=600)
+    ph["simulate_s"] = round(time.time() - t0, 1)
+    t0 = time.time()
     for i, b in enumerate(behs):
         add(play_tlc_behaviour(rng, b, storages, "mem" if i % 10 else "memoff"), "tlc")
-    n_rand = 2600 if ctx.quick else 40000
+    n_rand = 2200 if ctx.quick else 40000
     for i in range(n_rand):
         add(play_random(rng, storages, "mem" if i % 12 else "memoff"), "random")
-    n_sql = 60 if ctx.quick else 600
+    n_sql = 48 if ctx.quick else 600
     for i in range(n_sql):
         add(play_random(rng, storages, "sqlite", kind=["hyperband", "sha", "percentile", "patient"][i % 4]), "random-sqlite")
     n_plays = len(traces)
@@ -449,7 +464,12 @@ def run(ctx):
         traces.append(bt)
         ctx.count_case(bt, nontrivial=True)
 
+    ph["play_s"] = round(time.time() - t0, 1)
+    t0 = time.time()
     v = judge(ctx, traces, "played studies + bracket observations")
+    ph["validate_s"] = round(time.time() - t0, 1)
+    ctx.notes["phases"] = ph
+    print(f"[{ctx.pid}] phases {ph}", flush=True)
     kinds = {}
     for t in traces[:n_plays]:
         k = t["cfg"]["kind"]
